@@ -608,6 +608,12 @@ def span_specs(nmax, monthly=False):
             specs.append({'type': 'list', 'labels': [['i', 3 * i] for i in range(n)][::-1]})
         if monthly and n <= 5:
             specs.append({'type': 'period', 'freq': 'M', 'start': PER_M0, 'n': n})
+    # falsy labels (0, '', 0.0) first / in the middle / last: a label is never an omitted bound
+    specs.append({'type': 'list', 'labels': [['s', ''], ['i', 0], ['s', 'a']]})
+    specs.append({'type': 'range', 'start': -1, 'step': 1, 'n': 3})
+    specs.append({'type': 'nparr', 'labels': [['i', 0], ['i', 1], ['i', 2]]})
+    specs.append({'type': 'pdindex', 'labels': [['i', 2], ['i', 1], ['i', 0]]})
+    specs.append({'type': 'list', 'labels': [['f', 1.5], ['f', 0.0], ['i', 3]]})
     return specs
 
 
